@@ -86,7 +86,11 @@ func Run(p *Prog, maxSteps int) (res *RunResult) {
 			}
 			return res
 		case PRINT:
-			res.Out = append(res.Out, ref.Show(pop()))
+			v := pop()
+			if _, isB := v.(*ref.Block); isB {
+				res.Unspecified = "a block value is printed"
+			}
+			res.Out = append(res.Out, ref.Show(v))
 		case SETLOCAL:
 			stack[in.A] = stack[len(stack)-1]
 		case GETLOCAL:
@@ -133,9 +137,6 @@ func Run(p *Prog, maxSteps int) (res *RunResult) {
 				found := false
 				for i := len(blocks) - 1; i >= 0; i-- {
 					if v, ok := blocks[i].Fields[name]; ok {
-						if _, isB := v.(*ref.Block); isB {
-							res.Unspecified = "child block read through its key"
-						}
 						push(v)
 						found = true
 						break
@@ -158,6 +159,9 @@ func Run(p *Prog, maxSteps int) (res *RunResult) {
 		case FALSE:
 			push(false)
 		case NOT:
+			if _, isB := stack[len(stack)-1].(*ref.Block); isB {
+				res.Unspecified = "truth value of a block"
+			}
 			stack[len(stack)-1] = ref.Falsey(stack[len(stack)-1])
 		case EQ, LT, GT, ADD, SUB, MUL, DIV:
 			op := map[int]string{EQ: "==", LT: "<", GT: ">", ADD: "+", SUB: "-", MUL: "*", DIV: "/"}[in.Op]
@@ -199,6 +203,9 @@ func Run(p *Prog, maxSteps int) (res *RunResult) {
 		case LOOP:
 			next -= in.A
 		case JFALSE:
+			if _, isB := stack[len(stack)-1].(*ref.Block); isB {
+				res.Unspecified = "truth value of a block"
+			}
 			if ref.Falsey(stack[len(stack)-1]) {
 				next += in.A
 			}
